@@ -123,6 +123,19 @@ def check_shapes(ctx, f, g, lp, pv):
     ge1 = cnt is not None and g.holds_on_entry(o, ("cmp", "<=", "1", cnt))
     ctx.ob(3, "K9", "the operator loop runs at least once: the drawn operator count is >= 1 on every path into the loop (floored at 1)", ge1, f, o, construct="num ops >= 1",
            detail=f"loop `{stmt_text(o)}`; goal 1 <= {cnt} on entry: {ge1}")
+    # the floor is exactly "at least one": the only other definition of the count is the constant 1, taken only when the draw is below 1
+    if cnt:
+        from . import sched as _sched
+        rds = [d_ for d_ in _sched.reaching_defs(f, g, o, cnt) if isinstance(d_, ast.Assign)]
+        fb = [d_ for d_ in rds if isinstance(d_.value, ast.Constant)]
+        okfl = True
+        dfl = "no constant fallback (floor folded into the draw)"
+        for d_ in fb:
+            fs_ = g.facts_at(d_)
+            okfl = okfl and d_.value.value == 1 and not isinstance(d_.value.value, bool) and (norm.entails(fs_, ("cmp", "<", cnt, "1")) or norm.entails(fs_, ("cmp", "<=", cnt, "0")))
+            dfl = f"`{stmt_text(d_)}` under {sorted(norm.show(x) for x in fs_ if cnt in norm.show(x))}"
+        ctx.ob(3, "K2", "the operator count is replaced only when the draw is below 1, and then by exactly 1 (the mean stays about num_operators)", okfl, f, fb[0] if fb else o,
+               construct="floor of the operator count", detail=dfl)
     # the draw of the count
     if cnt:
         cdefs = [n for n in ast.walk(lp) if isinstance(n, ast.Assign) and norm.is_name(n.targets[0], cnt) and isinstance(n.value, ast.Call)]
